@@ -23,7 +23,7 @@ os.environ.setdefault('MPLBACKEND', 'Agg')
 import numpy as np  # noqa: E402
 import pandas as pd  # noqa: E402
 
-NAN_H = -1
+NAN_H = -1000000      # spec/Num.tla NaNH: the height of a non-detection in projected rows
 
 
 class Inexact(Exception):
@@ -74,15 +74,15 @@ def hint(h, strict=True):
     except Exception:
         if strict:
             raise Inexact(f'height {h!r}')
-        return -9
+        return NAN_H - 9
     if hf != round(hf) or math.isinf(hf):
         if strict:
             raise Inexact(f'non-integer height {h!r}')
-        return -7
-    if hf < 0:
+        return NAN_H - 7
+    if abs(hf) >= 100000:
         if strict:
-            raise Inexact(f'negative height {h!r} collides with the NaN sentinel')
-        return -8
+            raise Inexact(f'height {h!r} outside (-100000, 100000)')
+        return NAN_H - 8
     return int(hf)
 
 
